@@ -264,7 +264,78 @@ func c02Gen(tier string, seed int64, idx int) c02Case {
 	return c
 }
 
+// c02CompleteThenLoss: the handler sends its messages and returns success; the caller is slow and
+// starts receiving only after the complete response (trailer included) has been read by the client
+// AND the connection has then ended. The stream completed successfully: the caller must receive
+// every message and then io.EOF.
+func c02CompleteThenLoss(tier string, seed int64, idx, j int, res *core.Result) {
+	kind := []string{"server", "bidi"}[j%2]
+	ek := []string{"io.EOF", "custom", "wrapped-io.EOF", "context.Canceled"}[(j/2)%4]
+	res.Sample = map[string]any{"family": "complete-then-connection-end", "kind": kind, "read_error": ek}
+	setGMP([]int{1, 4, 16}[j%3])
+	h := bed.NewHooks()
+	h.Install()
+	b := bed.New(bed.Opts{Serialise: j%4 < 2})
+	cc := b.Conns[0]
+	gates := NewGates()
+	tag := fmt.Sprintf("ctl%d", idx)
+	hrec := &SideRec{}
+	hops := []Op{{Op: "send", N: 1, Size: 17}, {Op: "ret"}}
+	if kind == "server" {
+		hops = append([]Op{{Op: "recv", N: 1}}, hops...)
+	}
+	b.Impl.SetStream(tag, func(t, k string, ss grpc.ServerStream) error { return runHandlerProg(ss, t, hops, hrec, gates) })
+	end := b.Links[0].A
+	if e := c09ReadErr(ek); e != nil {
+		end.SetReadErr(e)
+	}
+	end.FailReadAfter(2) // one body + the trailer
+	end.SetOnRead(func(n int) {
+		if n >= 2 {
+			end.Discard()
+		}
+	})
+	cops := []Op{{Op: "gate", Gate: "connection-ended"}, {Op: "recvAll"}}
+	cr := StartClient(context.Background(), func() {}, nil, cc, kind, tag, []byte("q"), cops, nil, gates, nil, nil)
+	st, _ := settle(tier, func() bool { return readErrSet(cc) })
+	if st != "ok" {
+		res.Verdict, res.Note = core.Inconclusive, "end of connection not reached: "+st
+		gates.OpenAll()
+		finish(tier, b, h, res)
+		return
+	}
+	quiet(tier)
+	gates.Open("connection-ended")
+	st, snap := settle(tier, cr.IsDone)
+	if st == "stuck" {
+		res.ViolateD("stream-operation-never-returns/complete-then-connection-end", map[string]any{"goat_goroutines": goatParked(snap)}, "caller never returned although its complete response had been delivered")
+	} else if st == "timeout" {
+		res.Verdict, res.Note = core.Inconclusive, "watchdog"
+	} else {
+		observed := callerOutcome(cr.Rec)
+		if ok, why := seqEqual(cr.Rec.Recvd, hrec.Sent); !ok {
+			res.Violate("caller-sequence-differs/complete-then-connection-end", "the response was completely delivered before the connection ended (%s), but the caller received a different sequence: %s", ek, why)
+		}
+		if observed != io.EOF {
+			res.Violate("successful-stream-reported-failed/complete-then-connection-end", "handler returned success, message and trailer were read by the client, then the connection ended (%s); the caller observed %v instead of io.EOF", ek, observed)
+		}
+		res.Stat("complete_then_connection_end_cases", 1)
+	}
+	res.NonTrivial = true
+	finish(tier, b, h, res)
+}
+
 func c02Run(tier string, seed int64, idx int) *core.Result {
+	if base := tierN(tier, 600, 24000) + tierN(tier, 18, 180) + tierN(tier, 16, 128); idx >= base {
+		res := &core.Result{Verdict: core.Held, Sig: fmt.Sprintf("hsr/%d", idx)}
+		c02HTTPSlowReceiver(tier, seed, idx, idx-base, res)
+		return res
+	}
+	if base := tierN(tier, 600, 24000) + tierN(tier, 18, 180); idx >= base {
+		res := &core.Result{Verdict: core.Held, Sig: fmt.Sprintf("ctl/%d", idx)}
+		c02CompleteThenLoss(tier, seed, idx, idx-base, res)
+		return res
+	}
 	if base := tierN(tier, 600, 24000); idx >= base {
 		// streams over the shipped websocket transport
 		wc := wsGen(idx-base, true)
@@ -477,13 +548,13 @@ func init() {
 	core.Register(&core.Prop{
 		ID:    "C02",
 		Level: "exploration",
-		Rule:  "cases = 1..32 concurrent streams on one connection, each a (client program, handler program) pair from 9 admissible families over the 3 stream kinds with counts 0..200 and sizes {0,1,17,1Ki,4Ki,64Ki}; every third case is a directed window: one stream whose terminal receive (or a late send / late half-close) is parked by a hook between its done-check and its blocking step until the stream has been torn down. Non-trivial = the window rendezvous fired, or >=2 streams share the connection, or the stream has separate sender and receiver goroutines; distinct = distinct generated case descriptors. Plus (quick 18, thorough 180) cases over the shipped websocket transport on loopback sockets whose writes stall half-way: 2..8 ping-pong bidi streams of 2..5 messages (0..64 KiB) with 2..16 unary calls alongside; every stream must deliver every echo in order and end with io.EOF (30 s wall bound = inconclusive).",
-		Plan:  func(tier string, seed int64) int { return tierN(tier, 600, 24000) + tierN(tier, 18, 180) },
+		Rule:  "cases = 1..32 concurrent streams on one connection, each a (client program, handler program) pair from 9 admissible families over the 3 stream kinds with counts 0..200 and sizes {0,1,17,1Ki,4Ki,64Ki}; every third case is a directed window: one stream whose terminal receive (or a late send / late half-close) is parked by a hook between its done-check and its blocking step until the stream has been torn down. Non-trivial = the window rendezvous fired, or >=2 streams share the connection, or the stream has separate sender and receiver goroutines; distinct = distinct generated case descriptors. Plus (quick 18, thorough 180) cases over the shipped websocket transport on loopback sockets whose writes stall half-way: 2..8 ping-pong bidi streams of 2..5 messages (0..64 KiB) with 2..16 unary calls alongside; every stream must deliver every echo in order and end with io.EOF (30 s wall bound = inconclusive). Plus (quick 16, thorough 128) complete-then-connection-end cases: the handler sends a message and returns success, the caller starts receiving only after message and trailer were read by the client and the connection then ended (io.EOF, wrapped io.EOF, custom error, context.Canceled): it must get the message and io.EOF. Plus (quick 4, thorough 24) cases over the shipped HTTP transport (two instances behind loopback servers, fake clock): the handler bursts 5..8 messages and returns success, the caller starts receiving after the burst has backed up and 3 s of the transport clock have passed: all messages, then io.EOF.",
+		Plan:  func(tier string, seed int64) int { return tierN(tier, 600, 24000) + tierN(tier, 18, 180) + tierN(tier, 16, 128) + tierN(tier, 4, 24) },
 		Run:   c02Run,
 		MaxStats: []string{"max_streams_per_connection"},
 		Assumptions: []string{"only admissible program pairs (no pair that deadlocks by construction under zero buffering) are generated", "proxy topology limited to <=3 ping-pong style streams (below the proxy buffer)"},
 		RequiredStats: func(string) []string {
-			return []string{"window_rendezvous_fired", "streams_with_two_client_goroutines", "hook:cs.recv.window", "hook:cs.send.window", "ws_streams_checked"}
+			return []string{"window_rendezvous_fired", "streams_with_two_client_goroutines", "hook:cs.recv.window", "hook:cs.send.window", "ws_streams_checked", "complete_then_connection_end_cases", "http_slow_receiver_cases"}
 		},
 	})
 }
